@@ -140,7 +140,8 @@ def run(ck):
     pr0 = lib.single(prog, PB + "reset")
     # the loop over the steps may sit in ParserBase::reset itself or in a private helper of the parser it calls
     preg = lib.region(prog, pr0, within=lambda g_: g_.cls == pr0.cls and g_.cls)
-    sr = [e for g_ in preg for e in g_.calls(lambda e: (e.get("callee") or "") == H + "Private::Step::reset")]
+    sr = [e for e in pr0.calls(lambda e: (e.get("callee") or "") == H + "Private::Step::reset")] or \
+        [e for g_ in preg for e in g_.calls(lambda e: (e.get("callee") or "") == H + "Private::Step::reset")]
     pr_ = pr0
     if not sr:
         ck.ob("C04-R2", "ParserBase::reset/covers-every-step", False, pr_.loc, pr_,
